@@ -12,6 +12,22 @@ COMMON_NOTE = ("Trusted: Lean 4.33 kernel; axioms ⊆ {propext, Classical.choice
 
 # id -> (technique, level text, level note extra, design_ref)
 CHECKS = {
+    "C04": ("Lean 4 proof of sample encode/decode at every depth, cwrite width, chunked writes and the header+data "
+            "write→read composition (on top of the C03 and C05 theorems) + byte-exact differential correspondence + "
+            "read-back oracle over all (dtype, depth, format)",
+            "Theorems decode_encode, cwrite_width (never a different width than declared), cwrite_refuses_iff, "
+            "cwrite_dtype_irrelevant, cwriteAll_flatten, infer_nsamples, decode_prefix, readback_fil (a SIGPROC file = "
+            "encoded header ++ encoded samples reads back as (nbits, nchans, n, values)).",
+            "A float32 is an opaque 32-bit pattern; dtype conversion of in-range integer values is the identity by "
+            "assumption (NumPy astype); .tim/.dat/.spec/.fft/.inf paths are validated by the correspondence run and "
+            "the oracle only (PRESTO .inf is decimal text).", "§5 C04"),
+    "C06": ("Lean 4 proof that each streaming reduction (as writes over the C01 block plan) equals its whole-array "
+            "definition for every gulp + differential correspondence on real files + NumPy oracle",
+            "Theorems collapse_eq, readChan_eq, bandpass_eq, dedisperse_eq (incl. gulp<2*maxdelay, gulp>range, every "
+            "output cell written exactly once) and their gulp-independence corollaries; per-channel statistics by "
+            "C10's chunk_independent over the same block stream.",
+            "Integer-valued data (float32 sums exact); the delay vector is a parameter (its law is C09); output "
+            "allocation/headers are covered by the correspondence run and C08.", "§5 C06"),
     "C05": ("Lean 4 proof of the header byte codec (parse∘encode = id, encode∘parse = bytes, edit touches only its key) "
             "over tables regenerated from source + byte-exact differential correspondence + independent parser oracle",
             "Theorems parse_encode / encode_parse for any list of well-typed entries and any trailing data; edit_exact / "
